@@ -166,16 +166,16 @@ theorem contentEnd_spec (r : Text) :
         exact ⟨Nat.le_of_lt this.2, hnone p, fun _ => this.1⟩
       | none =>
         simp only
-        cases h3 : findSub ['\n', '-'] r with
-        | some p =>
-          simp only
-          have := findSub_get h3
-          split
-          · exact ⟨Nat.le_of_lt this.2, hnone p, fun _ => this.1⟩
-          · exact ⟨Nat.le_refl _, hnone _, fun h => by simp at h⟩
-        | none =>
-          simp only
-          cases h4 : findSub ['-', '}'] r with
+        split
+        · rename_i hs
+          simp only [Bool.and_eq_true, decide_eq_true_eq, beq_iff_eq] at hs
+          refine ⟨by omega, hnone _, fun _ => ?_⟩
+          have hl := hs.1
+          have hd := hs.2
+          have : (r.drop (r.length - 2))[0]? = some '\n' := by rw [hd]; rfl
+          rw [List.getElem?_drop] at this
+          simpa using this
+        · cases h4 : findSub ['-', '}'] r with
           | some p =>
             simp only
             have := findSub_get h4
